@@ -23,6 +23,7 @@ RULE = (
     "Non-trivial: every tile (65536 pixels compared); distinct by tile position and coordinate system."
     " Also: tiles taken from two enumerations advanced in lockstep; grids handed to samplers through the library's own box filter; the "
     'position reported for pixels next to the tile borders is looked up again (same tile, within 2 px).'
+    " Round 8: grids requested again after an earlier answer went through the library's own whole-map and chunk samplers; sampling entry points preceded by whole-map and per-chunk passes over the same layer in the same process."
 )
 ASSUMPTIONS = ["reference TOAST subdivision follows the documentation", "compiled extension as built; .pyx coherent with .c"]
 EXHAUSTIVE = {"quick": "all 84 tiles to depth 3 in both coordinate systems, all pixels", "thorough": "all 1364 tiles to depth 5 in both coordinate systems, all pixels"}
